@@ -920,4 +920,21 @@ theorem newStream_remote_props (s : State) (sid : Nat) (hloc : localInitiated s 
   rw [this]
   exact ⟨rfl, rfl, init_inv _ hw false⟩
 
+
+/-! ### concrete states used by the counterexamples / non-vacuity examples of `Props/C04RecvFlow.lean` -/
+
+/-- a server with client-initiated bidirectional stream 0 on which 4 bytes arrived -/
+def exState : State :=
+  match (State.init true 1000 100 100 100 10 10).onFrame .application (.stream 0 0 [1, 2, 3, 4] false) with
+  | .ok s => s
+  | .error _ => State.init true 1000 100 100 100 10 10
+
+/-- `none`: the frame was processed; `some c`: the connection is closed with `c` -/
+def outcome (r : Except ErrorCode State) : Option ErrorCode := match r with | .ok _ => none | .error e => some e
+
+/-- a server that opened its unidirectional stream 3 -/
+def exStateUni : State :=
+  let s := State.init true 1000 100 100 100 10 10
+  (s.setStream 3 (s.newStream 3)).setNext true true 1
+
 end Quic.Proofs.Lemmas.RecvViolations
